@@ -244,6 +244,9 @@ def run_check(ctx):
     # corpus: shipped stub headers that g++ accepts must parse with zero errors -----------
     n_corpus = corpus(ctx, work)
 
+    # name lookup: the entity a printed type name denotes ---------------------------------
+    n_lookup = name_lookup(ctx, work)
+
     # how exact are the finding predicates?  members of each class vs. members that actually failed
     failed = set(rejected) | bad_ents | bad3
     prec = {}
@@ -254,9 +257,10 @@ def run_check(ctx):
             m[0] += (f, n) in failed
             if (f, n) not in failed and os.environ.get("VERIF_STATS") and m[1] - m[0] <= 12:
                 print("PASSING-MEMBER", c, D[(f, n)])
-    ctx.notes["finding_class_failed_of_members"] = prec
+    ctx.notes.setdefault("finding_class_failed_of_members", {}).update(prec)
     ctx.cov["evaluations"] = len(ents)
-    ctx.cov["traces_validated_against_impl"] = n_cmp + len(todo3) + len(rejected) + n_corpus
+    ctx.cov["traces_validated_against_impl"] = n_cmp + len(todo3) + len(rejected) + n_corpus + n_lookup
+    ctx.notes["lookup_programs"] = n_lookup
     ctx.cov["distinct_nontrivial"] = len(set(t["s"] for t in terms if len(t["sh"]) > 2))
     ctx.cov["exhaustive"] = "sampled" not in ctx.notes
     ctx.cov["rule"] = ("TLC enumerates every well-formed type term up to MaxDepth constructors over 4 base types and both cv "
@@ -293,3 +297,127 @@ def corpus(ctx, work):
             ctx.violation("stub header accepted by g++ is rejected by parse_file: %s" % os.path.relpath(h, REPO),
                           dict(header=h, stderr=r.stderr[-800:], stat_key="corpus"))
     return n
+
+
+# ------------------------------------------------------------------------------------------
+# NameLookup: programs over the namespace tree  :: > A > B,  :: > N
+QUAL = {1: "", 2: "::A", 3: "::A::B", 4: "::N"}
+OPEN = {1: ("", ""), 2: ("namespace A { ", " }"), 3: ("namespace A { namespace B { ", " } }"), 4: ("namespace N { ", " }")}
+HELPER = """template<class X> struct P1;
+template<class X> struct P1<void(X *)> { static const int id = X::id; };
+"""
+
+
+def render_lookup(n, rec):
+    root = "::c%d" % n
+    out = ["namespace c%d {" % n, "namespace A { namespace B {} } namespace N {}"]
+    for it in rec["items"]:
+        o, c = OPEN[it["s"]]
+        if it["k"] == "decl":
+            body = "struct T { static const int id = %d; };" % it["e"]
+        elif it["k"] == "udecl":
+            body = "using %s%s::T;" % (root, QUAL[it["q"]])
+        elif it["k"] == "udir":
+            body = "using namespace %s%s;" % (root, QUAL[it["q"]])
+        else:
+            body = "namespace AL = %s%s;" % (root, QUAL[it["q"]])
+        out.append(o + body + c)
+    sp = rec["sp"]
+    if sp == "::T":
+        sp = root + "::T"
+    o, c = OPEN[rec["rs"]]
+    out.append(o + "void use(%s *p);" % sp + c)
+    out.append("}")
+    return out
+
+
+def lookup_assert(n, rec):
+    return 'static_assert(P1<decltype(c%d%s::use)>::id == %d, "c%d");' % (n, QUAL[rec["rs"]], rec["r"], n)
+
+
+def name_lookup(ctx, work):
+    dump = os.path.join(work, "lookup.ndjson")
+    res = tlc.run("NameLookupMC", "NameLookup_" + ctx.tier, env={"VERIF_DUMP": dump}, timeout=1800, workers=8)
+    ctx.add_tlc(res)
+    tlc.must_ok(res)
+    progs = tlc.read_dump(dump)
+    progs.sort(key=lambda r: repr(sorted(r.items())))
+    cap = 16000 if ctx.tier == "quick" else 80000
+    if len(progs) > cap:
+        step = -(-len(progs) // cap)
+        progs = progs[::step]
+        ctx.notes["lookup_sampled"] = "every %d-th program of the sorted dump" % step
+    B = 1000
+    batches = [list(enumerate(progs))[i:i + B] for i in range(0, len(progs), B)]
+
+    def one(arg):
+        bi, batch = arg
+        src = []
+        for n, rec in batch:
+            src += render_lookup(n, rec)
+        hdr = "nl%03d.h" % bi
+        open(os.path.join(work, hdr), "w").write("\n".join(src) + "\n")
+        asserts = [lookup_assert(n, rec) for n, rec in batch]
+        # spec sanity: g++ on the original text
+        open(os.path.join(work, "nl%03d_orig.cxx" % bi), "w").write('#include "%s"\n%s%s\n' % (hdr, HELPER, "\n".join(asserts)))
+        bad, err = gxx_bad_lines(work, "nl%03d_orig.cxx" % bi)
+        if bad:
+            return ("sanity", err[:1500], None)
+        r = run.run_tool("parse_file", [hdr], cwd=work, timeout=300)
+        if r.rc != 0 or r.timed_out:
+            return ("reject", r.stderr[-600:], batch)
+        # parse_file's dump of reopened namespaces is not itself compilable; what is compared is the
+        # (fully scoped) type name it prints in each `use` declaration, evaluated by g++ at global
+        # scope next to the original text
+        cur, names = None, {}
+        for line in r.stdout.split("\n"):
+            m = re.match(r"namespace c(\d+) \{", line)
+            if m:
+                cur = int(m.group(1))
+            m = re.search(r"void use\((.*) \*p\);", line)
+            if m and cur is not None:
+                names.setdefault(cur, set()).add(m.group(1).strip())
+        lines = ['#include "%s"' % hdr]
+        owner = {}
+        bad_cases = {}
+        for n, rec in batch:
+            got = names.get(n, set())
+            if len(got) != 1:
+                bad_cases[n] = sorted(got)
+                continue
+            lines.append('static_assert(%s::id == %d, "c%d");' % (list(got)[0], rec["r"], n))
+            owner[len(lines)] = n
+        open(os.path.join(work, "nl%03d_printed.cxx" % bi), "w").write("\n".join(lines) + "\n")
+        badl, err = gxx_bad_lines(work, "nl%03d_printed.cxx" % bi)
+        for l in badl:
+            if l in owner:
+                bad_cases[owner[l]] = sorted(names[owner[l]])
+            else:
+                return ("sanity", "printed-name TU fails outside any case:\n" + err[:1500], None)
+        return ("ok", bad_cases, batch)
+
+    total = 0
+    for res in run.pmap(one, list(enumerate(batches))):
+        kind = res[0]
+        if kind == "sanity":
+            raise MachineryError("NameLookup spec != g++: %s" % res[1])
+        if kind == "reject":
+            ctx.violation("parse_file rejects a batch of valid namespace programs: %s" % res[1][-300:], dict(stat_key="lookup-reject"))
+            continue
+        batch = res[2]
+        total += len(batch)
+        byn = dict(batch)
+        for n, printed in sorted(res[1].items()):
+            rec = byn[n]
+            ctx.violation("printed name denotes another entity: %s  is printed as %s (spec = g++: entity %d)" % (
+                " ".join(render_lookup(n, rec)[2:]), printed, rec["r"]),
+                dict(program=render_lookup(n, rec), printed=printed, expected=rec["r"],
+                     stat_key="lookup %s from %s %s" % (rec["sp"], rec["rs"], sorted(set(i["k"] for i in rec["items"])))),
+                classes=(["C06-using-declaration-ignored"] if rec["ud"] else []) +
+                        (["C06-using-directive-placement"] if rec["up"] else []))
+        ctx.notes.setdefault("finding_class_failed_of_members", {})
+        for cid, key in (("C06-using-declaration-ignored", "ud"), ("C06-using-directive-placement", "up")):
+            m = ctx.notes["finding_class_failed_of_members"].setdefault(cid, [0, 0])
+            m[1] += sum(1 for n, rec in batch if rec[key])
+            m[0] += sum(1 for n in res[1] if byn[n][key])
+    return total
